@@ -3,7 +3,14 @@
 (* Checksums.tla and writes the checksum of EVERY prefix of the message (one fold).              *)
 EXTENDS Checksums, Json, IOUtils
 In == ndJsonDeserialize(IOEnv.VERIF_IN)
+HugeVec(r) ==     \* message = r.msg \o (zero bytes, count given in binary as r.zbits) \o r.tail; expected value of the whole and of the first part
+  IF r.fn \in {"adler32", "adler32_bam1"} THEN
+       LET e == <<Adler(r.seed, r.msg), AdlerWithZeros(r.seed, r.msg, r.zbits, r.tail)>>
+       IN [id |-> r.id, fn |-> r.fn, seed |-> IF r.fn = "adler32" THEN r.seed ELSE AdlerToBam1(r.seed),
+           exp |-> IF r.fn = "adler32" THEN e ELSE [i \in 1..2 |-> AdlerToBam1(e[i])]]
+  ELSE [id |-> r.id, fn |-> r.fn, seed |-> r.seed, exp |-> <<Crc(r.fn, r.seed, r.msg), CrcWithZeros(r.fn, r.seed, r.msg, r.zbits, r.tail)>>]
 Vec(r) ==
+  IF "zbits" \in DOMAIN r THEN HugeVec(r) ELSE
   IF r.fn = "adler32" THEN
        [id |-> r.id, fn |-> r.fn, seed |-> r.seed,
         exp |-> IF r.final_only THEN <<Adler(r.seed, r.msg)>> ELSE AdlerPrefixes(r.seed, r.msg)]
@@ -15,5 +22,6 @@ Vec(r) ==
         exp |-> IF r.final_only THEN <<Crc(r.fn, r.seed, r.msg)>> ELSE CrcPrefixes(r.fn, r.seed, r.msg)]
 Out == [i \in 1..Len(In) |-> Vec(In[i])]
 ASSUME CheckValuesOK /\ SerialEqualsTable
+ASSUME AlgebraOK /\ AdlerAlgebraOK
 ASSUME ndJsonSerialize(IOEnv.VERIF_OUT, Out)
 =============================================================================
